@@ -55,7 +55,7 @@ def run(ctx):
     ctx.clause = 'D2'
     cdb = ctx.func(B + '.collect_data_block')
     r, I = ctx.run(cdb)
-    sel = [e for e in I.events if e.kind == 'store' and e.data.get('target') == 'name' and e.func.short == cdb.short
+    sel = [e for e in I.events if e.kind == 'store' and e.data.get('target') == 'name' and e.owner == cdb.short
            and e.data['value'].single_atom() is not None and e.data['value'].single_atom().kind == 'sub'
            and '.channelize' in pretty(e.data['value'].single_atom().args[0])[:40]]
     ctx.require(sel, 'collect_data_block: the coarse-channel selection of the channelizer output was not found')
@@ -120,7 +120,7 @@ def run(ctx):
         ctx.formula('AGREE', f'quick-look reducer forwards {p} to the fine channeliser', wf, b.get(p, T.NONE), sym(p),
                     node=call[-1].node, construct=f'get_pfb_waterfall({p}=...)')
     # byte de-interleave of the reducer (8 bit, 2 pol)
-    rb = [e for e in I.events if e.kind == 'store' and e.data.get('target') == 'name' and e.func.short == wf.short
+    rb = [e for e in I.events if e.kind == 'store' and e.data.get('target') == 'name' and e.owner == wf.short
           and e.data['value'].single_atom() is not None and e.data['value'].single_atom().kind == 'call'
           and any(a.kind == 'call' and a.args[0] == 'frombuffer' for a in T.all_atoms(e.data['value']).values())]
     ctx.require(rb, 'get_waterfall_from_raw: the raw byte buffer (np.frombuffer(...)) was not found')
